@@ -354,6 +354,9 @@ func Replay(c Case) Result {
 	cfg := lime.NewClientConfig()
 	cfg.Node = lime.Node{Identity: lime.Identity{Name: "cli", Domain: "example.com"}, Instance: "i"}
 	cfg.ChannelBufferSize = 4
+	if c.N%2 == 0 {
+		cfg.ChannelBufferSize = 0 // unbuffered streams: whatever the receiver hands over, somebody must be there to take it
+	}
 	cfg.NewTransport = func(ctx context.Context) (lime.Transport, error) {
 		if c.Cfg.Transport == "ws" {
 			return lime.DialWebsocket(ctx, "ws://"+addr.String()+"/", nil, nil)
